@@ -72,7 +72,9 @@ def thaw_message(msg):
 
     Will return None if called with None.
     """
-    if not isinstance(msg, Frozen):
+    if msg is None:
+        return None
+    elif not isinstance(msg, Frozen):
         # Already thawed, just return a copy.
         return msg.copy()
     elif isinstance(msg, FrozenMessage):
